@@ -21,6 +21,7 @@ import PsutilModel.Proofs.C05Parent
 import PsutilModel.Proofs.C05Table
 import PsutilModel.Proofs.C05Spec
 import PsutilModel.Proofs.C05Stat
+import PsutilModel.Proofs.C05Dyn
 import PsutilModel.Model.C05Gen
 namespace Psutil.C05
 open Spec
@@ -297,6 +298,272 @@ theorem C05_stat_roundtrip (pid : Nat) (comm state : Bytes) (ppid : Nat) (pre : 
     ∧ statPpid scfg (renderStat pid comm state ppid pre start post) = .ok ppid
     ∧ statCtime scfg (renderStat pid comm state ppid pre start post) = .ok start :=
   stat_roundtrip scfg scfg_good pid comm state ppid pre start post hst hpre hpost hlen hpl
+
+/-! ## The richer world: zombies, unreadable stat files, a world per step of `parents()`, oneshot
+
+  `L` is the listing `pids()` returned, `w0` the world in which the caller's identity is checked and
+  `ppid_map()` reads the stat files (ANY of them may be gone or unreadable), `wl` the world in which
+  each child is examined afterwards. `W i` are the worlds the i-th `parent()` call of `parents()` sees. -/
+
+theorem xcfg_good : xcfg.mapSkipsDenied = true ∧ xcfg.base = cfg := ⟨by decide, rfl⟩
+
+/-- a process readable when `ppid_map()` ran is not unreadable when it is examined -/
+def StaysReadable (L : List Nat) (w0 wl : XWorld) : Prop :=
+  ∀ c ∈ L, (∃ pp s, w0 c = .ok pp s) → wl c ≠ .denied
+
+theorem staysReadable_keys {L : List Nat} {w0 wl : XWorld} (h : StaysReadable L w0 wl) :
+    ∀ p ∈ (linksOf L w0).map (·.1), wl p ≠ .denied := by
+  intro p hp
+  obtain ⟨e, he, rfl⟩ := List.mem_map.1 hp
+  obtain ⟨hL, s, hs⟩ := mem_linksOf.1 (show (e.1, e.2) ∈ linksOf L w0 from he)
+  exact h e.1 hL ⟨e.2, s, hs⟩
+
+/-- **C05_unreadable_left_out** (non-recursive). Whatever subset of the other processes has an
+    unreadable (EACCES/EPERM) or vanished stat file when `ppid_map()` runs, `children()` does not fail:
+    it returns exactly the children among the processes whose links are visible (`linksOf`: listed and
+    readable), each once, never the caller — an unreadable process is left out. -/
+theorem C05_unreadable_left_out (me : Caller) (L : List Nat) (w0 wl : XWorld) (hL : L.Nodup)
+    (hr : me.reused = false) (hgone : me.gone = false) (ha : ∃ pp, w0 me.pid = .ok pp me.ctime)
+    (hwl : StaysReadable L w0 wl) :
+    ∃ l, (childrenX xcfg me false L w0 wl).2 = .ok l
+      ∧ IsSetOf l (fun c => Child (linksOf L w0) (lookOfW wl) me.ctime me.pid c ∧ c ≠ me.pid) := by
+  obtain ⟨pp, hpp⟩ := ha
+  have hme : w0 me.pid ≠ .denied := by rw [hpp]; simp
+  have hal : Alive (lookOfW w0) me := by unfold Alive lookOfW; rw [hpp]
+  rw [childrenX_refines xcfg xcfg_good.1 me false L w0 wl hme (staysReadable_keys hwl)]
+  obtain ⟨l, h1, h2⟩ := C05_children_exact me (lookOfW w0) (linksOf L w0) (lookOfW wl)
+    (uniquePids_linksOf w0 hL) hr hgone hal
+  refine ⟨l, ?_, h2⟩
+  show XOut.ofOut (children xcfg.base me false (lookOfW w0) (linksOf L w0) (lookOfW wl)).2 = _
+  rw [xcfg_good.2, h1]; rfl
+
+/-- **C05_unreadable_left_out** (recursive): exactly the descendants through visible links. -/
+theorem C05_unreadable_left_out_rec (me : Caller) (L : List Nat) (w0 wl : XWorld) (hL : L.Nodup)
+    (hr : me.reused = false) (hgone : me.gone = false) (ha : ∃ pp, w0 me.pid = .ok pp me.ctime)
+    (hwl : StaysReadable L w0 wl) :
+    ∃ l, (childrenX xcfg me true L w0 wl).2 = .ok l
+      ∧ IsSetOf l (fun c => Desc (linksOf L w0) (lookOfW wl) me.ctime me.pid c ∧ c ≠ me.pid) := by
+  obtain ⟨pp, hpp⟩ := ha
+  have hme : w0 me.pid ≠ .denied := by rw [hpp]; simp
+  have hal : Alive (lookOfW w0) me := by unfold Alive lookOfW; rw [hpp]
+  rw [childrenX_refines xcfg xcfg_good.1 me true L w0 wl hme (staysReadable_keys hwl)]
+  obtain ⟨l, h1, h2⟩ := C05_children_rec_exact me (lookOfW w0) (linksOf L w0) (lookOfW wl)
+    (uniquePids_linksOf w0 hL) hr hgone hal
+  refine ⟨l, ?_, h2⟩
+  show XOut.ofOut (children xcfg.base me true (lookOfW w0) (linksOf L w0) (lookOfW wl)).2 = _
+  rw [xcfg_good.2, h1]; rfl
+
+/-- what a visible link is: the PID is listed and its stat file was read -/
+theorem C05_links_visible (L : List Nat) (w : XWorld) (c p : Nat) :
+    (c, p) ∈ linksOf L w ↔ c ∈ L ∧ ∃ s, w c = .ok p s := mem_linksOf
+
+/-- **C05_unreadable_never_returned.** A process whose stat file was unreadable when `ppid_map()` ran
+    is in no result, at any depth. -/
+theorem C05_unreadable_never_returned (me : Caller) (recursive : Bool) (L : List Nat) (w0 wl : XWorld)
+    (hL : L.Nodup) (hr : me.reused = false) (hgone : me.gone = false)
+    (ha : ∃ pp, w0 me.pid = .ok pp me.ctime) (hwl : StaysReadable L w0 wl) (l : List Nat)
+    (h : (childrenX xcfg me recursive L w0 wl).2 = .ok l) (c : Nat) (hc : w0 c = .denied) : c ∉ l := by
+  intro hm
+  have hlink : ∀ {x : Nat}, (∃ p, (x, p) ∈ linksOf L w0) → w0 x ≠ .denied := by
+    rintro x ⟨p, hp⟩
+    obtain ⟨_, s, hs⟩ := mem_linksOf.1 hp
+    rw [hs]; simp
+  cases recursive with
+  | false =>
+    obtain ⟨l', h1, _, h2⟩ := C05_unreadable_left_out me L w0 wl hL hr hgone ha hwl
+    rw [h1] at h; cases h
+    exact hlink ⟨_, ((h2 c).1 hm).1.1⟩ hc
+  | true =>
+    obtain ⟨l', h1, _, h2⟩ := C05_unreadable_left_out_rec me L w0 wl hL hr hgone ha hwl
+    rw [h1] at h; cases h
+    have hd := ((h2 c).1 hm).1
+    cases hd with
+    | base hch => exact hlink ⟨_, hch.1⟩ hc
+    | step _ hch => exact hlink ⟨_, hch.1⟩ hc
+
+/-- the statement WITHOUT the hypothesis that readable processes stay readable during the walk -/
+def C05_unreadable_left_out_Full : Prop :=
+  ∀ (me : Caller) (recursive : Bool) (L : List Nat) (w0 wl : XWorld), L.Nodup → me.reused = false →
+    me.gone = false → (∃ pp, w0 me.pid = .ok pp me.ctime) →
+    ∃ l, (childrenX xcfg me recursive L w0 wl).2 = .ok l
+
+def tDeny0 : XTable := [⟨1, 0, 1, .run⟩, ⟨5, 1, 10, .run⟩, ⟨6, 5, 20, .run⟩]
+def tDeny1 : XTable := [⟨1, 0, 1, .run⟩, ⟨5, 1, 10, .run⟩, ⟨6, 5, 20, .denied⟩]
+
+/-- …is FALSE of the code as found: child 6 is readable while `ppid_map()` runs and unreadable when
+    `Process(6).create_time()` is asked (e.g. it exec'ed a set-uid binary under hidepid=1):
+    `AccessDenied(6)` escapes from `Process(5).children()` — `except (NoSuchProcess, ZombieProcess)`
+    does not catch it. -/
+theorem C05_unreadable_mid_walk_counterexample :
+    (childrenX xcfg ⟨5, 10, false, false⟩ false tDeny0.pids tDeny0.read tDeny1.read).2 = .denied 6
+    ∧ (childrenX xcfg ⟨5, 10, false, false⟩ true tDeny0.pids tDeny0.read tDeny1.read).2 = .denied 6
+    ∧ ¬ C05_unreadable_left_out_Full := by
+  have h1 : (childrenX xcfg ⟨5, 10, false, false⟩ false tDeny0.pids tDeny0.read tDeny1.read).2 = .denied 6 := by
+    decide
+  refine ⟨h1, by decide, ?_⟩
+  intro hf
+  obtain ⟨l, hl⟩ := hf ⟨5, 10, false, false⟩ false tDeny0.pids tDeny0.read tDeny1.read (by decide) rfl rfl
+    ⟨1, by decide⟩
+  rw [h1] at hl; cases hl
+
+/-- without the skip in `ppid_map()` (psutil before cdbd31b) one unreadable stat file anywhere in the
+    listing makes `children()` of ANY process fail with a bare `PermissionError` -/
+theorem C05_unreadable_needs_skip :
+    (childrenX { xcfg with mapSkipsDenied := false } ⟨1, 1, false, false⟩ false tDeny1.pids tDeny1.read tDeny1.read).2
+      = .permissionError
+    ∧ (childrenX xcfg ⟨1, 1, false, false⟩ true tDeny1.pids tDeny1.read tDeny1.read).2 = .ok [5] := by
+  refine ⟨by decide, by decide⟩
+
+/-- **C05_zombie_transparent.** Zombies (state Z: exited, not yet reaped, still listed) are processes
+    like any other for all three calls: turning any set of rows of any of the tables involved into
+    zombies, or back, changes no result — as caller, as child, as parent. -/
+theorem C05_zombie_transparent (me : Caller) (recursive : Bool) (T0 T1 : XTable) :
+    childrenX xcfg me recursive (XTable.pids (T0.map unz)) (XTable.read (T0.map unz)) (XTable.read (T1.map unz))
+      = childrenX xcfg me recursive T0.pids T0.read T1.read := by
+  rw [read_unz, read_unz, pids_unz]
+
+theorem C05_zombie_transparent_parents (fuel : Nat) (ps : Ps) (Ts : Nat → XTable) (me : Caller) (os : Oneshot) :
+    parentsX cfg fuel ps (fun i => stepOfX ((Ts i).map unz)) me os
+      = parentsX cfg fuel ps (fun i => stepOfX (Ts i)) me os := by
+  have : (fun i => stepOfX ((Ts i).map unz)) = (fun i => stepOfX (Ts i)) := by
+    funext i
+    unfold stepOfX
+    rw [read_unz, pids_unz]
+  rw [this]
+
+def tZ : XTable := [⟨1, 0, 1, .run⟩, ⟨5, 1, 10, .zombie⟩, ⟨6, 5, 20, .zombie⟩, ⟨7, 5, 9, .zombie⟩, ⟨8, 6, 30, .run⟩]
+
+/-- a zombie caller lists its children (zombie 6, and 8 below it; 7 is older: a recycled PID), a zombie
+    child is listed, the parent of a zombie and a zombie parent are found -/
+example : (childrenX xcfg ⟨5, 10, false, false⟩ false tZ.pids tZ.read tZ.read).2 = .ok [6]
+    ∧ (childrenX xcfg ⟨5, 10, false, false⟩ true tZ.pids tZ.read tZ.read).2 = .ok [6, 8]
+    ∧ (parentsX cfg 7 ⟨none⟩ (fun _ => stepOfX tZ) ⟨8, 30, false, false⟩ none).2
+        = .ok [⟨6, 5, 20⟩, ⟨5, 1, 10⟩, ⟨1, 0, 1⟩] := by
+  refine ⟨by decide, by decide, by decide⟩
+
+/-- **C05_unreadable_caller_NSP** (as found). A caller whose own stat file has become unreadable no
+    longer compares equal to `Process(pid)` (`_ident = (pid, None)`): it is treated as a reused PID. -/
+theorem C05_unreadable_caller_NSP (me : Caller) (recursive : Bool) (L : List Nat) (w0 wl : XWorld)
+    (h : w0 me.pid = .denied) : (childrenX xcfg me recursive L w0 wl).2 = .nsp me.pid := by
+  unfold childrenX
+  simp [xcfg_good.2, cfg_good.childrenGuarded, cfg_good.goneRaises, raiseX_denied h]
+
+/-! ### parents() while the table changes between the steps -/
+
+/-- **C05_parents_dyn_spec.** For ANY sequence of worlds — ancestors exiting, being reaped, their PIDs
+    reused between two `parent()` calls — `parents()` is `chainDyn`: `parentOfW` (parent() as the
+    statement reads, in the worlds of that step) iterated, cut at the root, at a PID already on the
+    chain, and ended by NoSuchProcess at an element that is no longer itself. -/
+theorem C05_parents_dyn_spec (fuel : Nat) (ps : Ps) (W : Nat → PStep) (me : Caller) (os : Oneshot) (low : Nat)
+    (hlow : lowestPidX ps (W 0).listing = (⟨some low⟩, some low)) (hos : ∀ pp, os ≠ some (some pp))
+    (hr : me.reused = false) (hgone : me.gone = false) :
+    (parentsX cfg fuel ps W me os).2 = chainDyn W low fuel 0 [me.pid] me.pid me.ctime [] :=
+  parentsLoopX_spec cfg cfg_good W low fuel 0 ps [me.pid] me os [] hlow hos hr hgone
+
+/-- **C05_parents_dyn_links.** Every element of the returned chain was the parent of the previous one
+    at the time it was looked up (`ParentAt` in the worlds of its step), the previous one still being
+    the same incarnation at that moment (`SameAt`); no element is younger than its child (hence than
+    the caller); no PID occurs twice and the caller is not among them. -/
+theorem C05_parents_dyn_links (fuel : Nat) (ps : Ps) (W : Nat → PStep) (me : Caller) (os : Oneshot) (low : Nat)
+    (hlow : lowestPidX ps (W 0).listing = (⟨some low⟩, some low)) (hos : ∀ pp, os ≠ some (some pp))
+    (hr : me.reused = false) (hgone : me.gone = false) (l : List Row)
+    (h : (parentsX cfg fuel ps W me os).2 = .ok l) :
+    Linked W 0 me.pid me.ctime l ∧ (me.pid :: l.map (·.pid)).Nodup ∧ ∀ q ∈ l, q.start ≤ me.ctime := by
+  rw [C05_parents_dyn_spec fuel ps W me os low hlow hos hr hgone] at h
+  obtain ⟨l', hl, hlink, hseen, hnd, hle⟩ := chainDyn_linked W low fuel 0 [me.pid] me.pid me.ctime [] l h
+  simp only [List.nil_append] at hl
+  subst hl
+  refine ⟨hlink, ?_, hle⟩
+  rw [List.nodup_cons]
+  refine ⟨?_, hnd⟩
+  intro hm
+  obtain ⟨q, hq, hqp⟩ := List.mem_map.1 hm
+  exact hseen q hq (by rw [hqp]; exact List.mem_singleton.2 rfl)
+
+/-- **C05_parents_dyn_terminates.** Whatever the worlds do, `parents()` ends within `|U| + 2` iterations,
+    `U` being any list that contains the PIDs the look-ups can find (e.g. `0 … pid_max`): every
+    iteration puts a PID on the chain that was not there before (the `seen` set of 7ebb1d1). -/
+theorem C05_parents_dyn_terminates (ps : Ps) (W : Nat → PStep) (me : Caller) (os : Oneshot) (low : Nat)
+    (hlow : lowestPidX ps (W 0).listing = (⟨some low⟩, some low)) (hos : ∀ pp, os ≠ some (some pp))
+    (hr : me.reused = false) (hgone : me.gone = false) (U : List Nat)
+    (hU : ∀ i p gp st, (W i).wp p = .ok gp st → p ∈ U) :
+    (parentsX cfg (U.length + 2) ps W me os).2 ≠ .diverged := by
+  rw [C05_parents_dyn_spec _ ps W me os low hlow hos hr hgone]
+  refine chainDyn_terminates W low U hU _ _ _ _ _ _ ?_
+  have := unseenCnt_le_length U [me.pid]
+  omega
+
+/-- **C05_parent_dyn_dead_NSP.** One `parent()` call in ANY three worlds: when the object's incarnation
+    does not own the PID at the identity check (gone, another start time, unreadable) and it is not
+    the root, the call raises NoSuchProcess(pid) — this is also how `parents()` ends at an ancestor
+    that exited or was recycled between two steps. -/
+theorem C05_parent_dyn_dead_NSP (ps : Ps) (s : PStep) (me : Caller) (os : Oneshot) (low : Nat)
+    (hlow : lowestPidX ps s.listing = (⟨some low⟩, some low)) (hos : ∀ pp, os ≠ some (some pp))
+    (hr : me.reused = false) (hgone : me.gone = false) (hroot : me.pid ≠ low)
+    (hdead : ¬ SameAt s me.pid me.ctime) : (parentX cfg ps s me os).2.2.2 = .nsp me.pid := by
+  rw [(parentX_spec cfg cfg_good ps s me os low hlow hos hr hgone).2]
+  unfold parentOfW
+  simp only [hroot, if_false]
+  cases hwi : s.wi me.pid with
+  | gone => rfl
+  | denied => rfl
+  | ok pp s0 =>
+    by_cases hs0 : s0 = me.ctime
+    · exact absurd ⟨pp, by rw [hwi, hs0]⟩ hdead
+    · simp [hs0, PRes.toOut]
+
+def w0dyn : XTable := [⟨1, 0, 1, .run⟩, ⟨10, 1, 5, .run⟩, ⟨20, 10, 8, .run⟩, ⟨30, 20, 9, .run⟩]
+/-- after the first step: 20 exited and its PID was reused by a process started at 50 -/
+def w1dyn : XTable := [⟨1, 0, 1, .run⟩, ⟨10, 1, 5, .run⟩, ⟨20, 1, 50, .run⟩, ⟨30, 1, 9, .run⟩]
+/-- after the first step: 10 exited, 20 was re-parented to init -/
+def w2dyn : XTable := [⟨1, 0, 1, .run⟩, ⟨20, 1, 8, .run⟩, ⟨30, 20, 9, .run⟩]
+
+/-- non-vacuity: a constant world gives the full chain; an ancestor recycled between the steps ends the
+    walk with NoSuchProcess(ancestor); an ancestor re-parented between the steps gives the chain of
+    the links as they were when looked up -/
+example : (parentsX cfg 6 ⟨none⟩ (fun _ => stepOfX w0dyn) ⟨30, 9, false, false⟩ none).2
+      = .ok [⟨20, 10, 8⟩, ⟨10, 1, 5⟩, ⟨1, 0, 1⟩]
+    ∧ (parentsX cfg 6 ⟨none⟩ (fun i => if i = 0 then stepOfX w0dyn else stepOfX w1dyn) ⟨30, 9, false, false⟩ none).2
+      = .nsp 20
+    ∧ (parentsX cfg 6 ⟨none⟩ (fun i => if i = 0 then stepOfX w0dyn else stepOfX w2dyn) ⟨30, 9, false, false⟩ none).2
+      = .ok [⟨20, 10, 8⟩, ⟨1, 0, 1⟩] := by
+  refine ⟨by decide, by decide, by decide⟩
+
+/-! ### oneshot -/
+
+/-- **C05_oneshot_parent_cached.** Inside `with p.oneshot():`, once `ppid()` has answered `pp`, `parent()`
+    is answered from the cache: neither the identity check nor the own stat file is consulted (the
+    worlds `wi`, `wo` do not occur on the right-hand side); only `Process(pp)` is looked up afresh and
+    tested against the caller's start time. A re-parenting inside the block is therefore not seen. -/
+theorem C05_oneshot_parent_cached (s : PStep) (me : Caller) (pp : Nat) :
+    (parentCoreX cfg s me (some (some pp))).2.2
+      = (match s.wp pp with
+         | .gone => .ok none
+         | .denied => .denied pp
+         | .ok gp st => if st ≤ me.ctime then .ok (some ⟨pp, gp, st⟩) else .ok none) := by
+  unfold parentCoreX ppidX
+  simp only
+  cases s.wp pp with
+  | gone => rfl
+  | denied => rfl
+  | ok gp st =>
+    by_cases hle : st ≤ me.ctime
+    · simp [cfg_good.parentOp, Cmp.eval, hle]
+    · simp [cfg_good.parentOp, Cmp.eval, hle]
+
+/-- …and the first `ppid()` inside the block is an ordinary one that fills the cache -/
+example : (ppidX cfg (stepOfX w0dyn) ⟨30, 9, false, false⟩ (some none)).2 = (some (some 20), .ok 20) := by decide
+
+/-! ### The table of seeded change C05-2 (a descendant older than the caller behind a recycled PID) -/
+
+def seeded2 : Table :=
+  [⟨1, 0, 1⟩, ⟨100, 1, 5000⟩, ⟨200, 100, 6000⟩, ⟨500, 200, 6500⟩, ⟨300, 200, 1000⟩, ⟨400, 300, 7000⟩,
+   ⟨600, 100, 900⟩, ⟨700, 500, 4999⟩]
+
+/-- 300 (older than the caller, hanging off the recycled PID 200) is not a descendant, nor is 400 below
+    it, nor 700 at depth 3: `C05_no_older` / `C05_children_rec_exact` speak about every depth -/
+example : (children cfg ⟨100, 5000, false, false⟩ true (lookOf seeded2) (ppidMap seeded2) (lookOf seeded2)).2
+    = .ok [200, 500] := by decide
 
 /-! ## Why each fact of `cfg_good` matters (counterexamples for the other configurations) -/
 
